@@ -312,7 +312,7 @@ func heavy(c *core.Ctx) {
 			do(Case{Fn: "Clone", Len: n, Cap: n + n%4})
 		}
 	}
-	c.Note("oracle-heavy stream: capacities 15..4097 (p-1, p, p+1 for every power of two, and 100, 1000, 1500, 3000) x lengths {0,1,cap/8,cap/4,cap/4+1,cap/2+1,cap-1,cap,random} x positions {0,1,len/2,len-1,len,random,-1 or len+1} x inserted blocks {0,1,spare,spare+1,2cap+1,random} / removed blocks {0,1,half,tail-1,up to the tail,tail+1,random, every block leaving 1,cap/8,cap/4,cap/4+1,cap/2,cap/2+1 elements}; Grow n and Concat second operand over the same kinds of sizes; Fill, Repeat, Reverse, Clone for every length 0..1100 and around the powers of two / every 7th length up to 4100; all checked by the direct oracle (incl. spare capacity, old array, aliasing probes), a deterministic sample also evaluated on the Coq model (stat oracle_only counts the rest)")
+	c.Note("oracle-heavy stream: capacities 15..4097 (p-1, p, p+1 for every power of two, and 100, 1000, 1500, 3000) x lengths {0,1,cap/8,cap/4,cap/4+1,cap/2+1,cap-1,cap,random} x positions {0,1,len/2,len-1,len,random,-1 or len+1} x inserted blocks {0,1,spare,spare+1,2cap+1,random} / removed blocks {0,1,half,tail-1,up to the tail,tail+1,random, every block leaving 1,cap/8,cap/4,cap/4+1,cap/2,cap/2+1 elements}; Grow n and Concat second operand over the same kinds of sizes; Fill, Repeat, Reverse, Clone for every length 0..1100 and around the powers of two / every 7th length up to 4100; all checked by the direct oracle (visible contents, panic exactly on invalid positions with removals leaving the slice unchanged, cells beyond the touched range on the same array, inputs unmodified, aliasing probes; the old array after a move, stale cells, result capacities and everything on negative lengths/counts are recorded as stats only), a deterministic sample also evaluated on the Coq model (stat oracle_only counts the rest)")
 }
 
 func clone(s []int) []int { return append([]int{}, s...) }
@@ -460,7 +460,27 @@ func execOpt(c *core.Ctx, cs Case, emit bool) {
 			k = 1
 		}
 		if k < 0 {
-			c.Count("negative_length") // outside the property; compared with the model only
+			// outside the property: not judged, neither here nor by check_case. What the transcribed code does
+			// (copy to the right, then re-slice to len-k: panic iff index+k < 0 or len-k > cap) is computed
+			// here and agreement is recorded as a stat only.
+			c.Count("negative_length_outside_property")
+			exp := clone(cs.Arr)
+			expPanic, expLen := false, n
+			if cs.Index < 0 || cs.Index > n || cs.Index+k < 0 {
+				expPanic = true
+			} else {
+				copy(exp[cs.Index:n], cs.Arr[cs.Index+k:n])
+				if n-k > capacity {
+					expPanic = true
+				} else {
+					expLen = n - k
+				}
+			}
+			if expPanic == (kind != "") && obsLen == expLen && core.Eq(vis, exp[:expLen]) {
+				c.Count("negative_length_as_model")
+			} else {
+				c.Count("negative_length_differs_from_model")
+			}
 			break
 		}
 		if cs.Index < 0 || cs.Index+k > n {
@@ -503,9 +523,12 @@ func execOpt(c *core.Ctx, cs Case, emit bool) {
 		}
 	case "Repeat":
 		if cs.K < 0 {
-			c.Count("invalid_position")
-			if kind == "" {
-				fail(fmt.Sprintf("Repeat with negative count %d did not panic", cs.K))
+			// outside the property (count >= 0): not judged; the transcribed code panics in make
+			c.Count("negative_count_outside_property")
+			if kind != "" {
+				c.Count("negative_count_as_model")
+			} else {
+				c.Count("negative_count_differs_from_model")
 			}
 			break
 		}
@@ -569,9 +592,12 @@ func execOpt(c *core.Ctx, cs Case, emit bool) {
 		}
 	case "Grow":
 		if cs.K < 0 {
-			c.Count("invalid_position")
-			if kind == "" {
-				fail(fmt.Sprintf("Grow with negative n %d did not panic", cs.K))
+			// outside the property (n >= 0): not judged; the transcribed code panics in make
+			c.Count("negative_count_outside_property")
+			if kind != "" {
+				c.Count("negative_count_as_model")
+			} else {
+				c.Count("negative_count_differs_from_model")
 			}
 			break
 		}
